@@ -491,6 +491,12 @@ def evaluate(ctx: Ctx, cfg: dict) -> dict:
     try:
         for scale in scales:
             model = equiv.perturb(model0, np.random.Generator(np.random.PCG64(pseed)), scale)
+            if cfg.get("train_steps"):
+                # parameter values reached by gradient steps over all array leaves (what ml.train updates)
+                stage = "gradient steps"
+                x_tr = equiv.random_blocks(np.random.Generator(np.random.PCG64(pseed + 1)), sig_in, D, spatial, kind="normal")
+                model = equiv.gradient_steps(model, x_tr, D, torus, steps=int(cfg["train_steps"]))
+                obs["train_steps"] = int(cfg["train_steps"])
             if scale == scales[0]:
                 p1 = equiv.param_leaves(model)
                 obs["params_moved"] = sum(1 for (_, a), (_, b) in zip(p0, p1) if not np.array_equal(a, b))
@@ -791,6 +797,8 @@ def make_cfg(rng, cls, D=2, preact=False, sig=None, group_norm=None, activation=
         opts = [None, None, "SAME", "VALID"] + (["TORUS"] if all(cfg["is_torus"]) else [])
         cfg["padding"] = pick(rng, opts)
         cfg["rhs_dilation"] = 1 if cfg["padding"] == "VALID" else int(pick(rng, [1, 1, 2]))
+    # the ConvBlock models (and one ResNet in two) are judged at parameter values reached by two gradient steps
+    cfg["train_steps"] = 2 if (cls == "convblock" or (cls == "resnet" and D == 2 and rng.integers(2))) else 0
     cfg.update(over)
     if cls == "convblock" and not reachable(set(banks(D)[0].keys()), cfg["sig_in"], cfg["sig_out"]):
         raise InfraError(f"signature {sig}: an output type cannot be produced from the input types with the bank of d={D}")
@@ -798,7 +806,8 @@ def make_cfg(rng, cls, D=2, preact=False, sig=None, group_norm=None, activation=
     cfg["run_seed"] = int(rng.integers(2 ** 31 - 1))
     tk = torus_kind(cfg["is_torus"])
     cfg["name"] = (f"{cls}{'/pre' if cfg['preact'] else ''}/d{D}/{sig}/act={activation}/gn={int(cfg['group_norm'])}/"
-                   f"bias={use_bias}/{'x'.join(map(str, cfg['spatial']))}/torus={tk}")
+                   f"bias={use_bias}/{'x'.join(map(str, cfg['spatial']))}/torus={tk}"
+                   + ("/trained" if cfg["train_steps"] else ""))
     return cfg
 
 
